@@ -179,7 +179,9 @@ class ConstraintCopyBuilder(ModelVisitor):
         
     def visit_constraint_unique(self, c:ConstraintUniqueModel):
         if self.do_copy_level > 0:
-            self.constraints.append(c.clone())
+            # The operands can refer to the iteration of an enclosing foreach
+            self.constraints.append(ConstraintUniqueModel(
+                [self.expr(e) for e in c.unique_l]))
         else:
             super().visit_constraint_unique(c)
         
